@@ -245,6 +245,7 @@ type session struct {
 	probes            []J
 	prof              *countingProfiler
 	nload, noCtxFirst int
+	stdPkgs           map[string]bool    // packages that existed before the test program ran (standard library)
 	errIdx            map[*lisp.LVal]int // identity of error objects seen in this evaluation (capture builtin, final value)
 }
 
@@ -336,6 +337,12 @@ func newSession(cfg runCfg) (*session, error) {
 	if rc := env.UsePackage(lisp.Symbol(lisp.DefaultLangPackage)); rc.Type == lisp.LError {
 		return nil, fmt.Errorf("use-package: %v", rc)
 	}
+	s.stdPkgs = map[string]bool{}
+	for _, pn := range env.Runtime.Registry.PackageNames() {
+		if pn != lisp.DefaultUserPackage {
+			s.stdPkgs[pn] = true
+		}
+	}
 	switch cfg.TRO {
 	case "off":
 		env.Runtime.Debugger = dormantDebugger{}
@@ -370,10 +377,22 @@ func (s *session) probe(env *lisp.LEnv, args *lisp.LVal) *lisp.LVal {
 		fs = fs[:len(fs)-1]
 	}
 	tags := make([]interface{}, 0, len(args.Cells))
+	spare := make([]int, 0, len(args.Cells))
 	for _, a := range args.Cells {
 		tags = append(tags, jv(a))
+		// spare capacity of the argument's cell storage (Go slice capacity minus length); -1 when it has none
+		switch {
+		case a.Type == lisp.LSExpr:
+			spare = append(spare, cap(a.Cells)-len(a.Cells))
+		case a.Type == lisp.LArray && len(a.Cells) == 2:
+			spare = append(spare, cap(a.Cells[1].Cells)-len(a.Cells[1].Cells))
+		case a.Type == lisp.LBytes:
+			spare = append(spare, cap(a.Bytes())-len(a.Bytes()))
+		default:
+			spare = append(spare, -1)
+		}
 	}
-	s.probes = append(s.probes, J{"tag": tags, "frames": frameView(fs), "steps": r.Steps(), "nest": r.EvalNesting(), "pkg": r.Package.Name})
+	s.probes = append(s.probes, J{"tag": tags, "spare": spare, "frames": frameView(fs), "steps": r.Steps(), "nest": r.EvalNesting(), "pkg": r.Package.Name})
 	return lisp.Nil()
 }
 
@@ -390,7 +409,27 @@ func (s *session) load(name, src string) *lisp.LVal {
 func (s *session) restState() J {
 	r := s.env.Runtime
 	cc := r.CurrentCondition()
-	st := J{"frames": len(r.Stack.Frames), "nest": r.EvalNesting(), "pkg": r.Package.Name, "cond": cc != nil, "ctxleak": s.ctx != nil && s.env.Context() == context.Context(s.ctx)}
+	reg := J{}
+	langNames := map[string]bool{}
+	if lp := r.Registry.Package(lisp.DefaultLangPackage); lp != nil {
+		for _, n := range lp.SymbolNames() {
+			langNames[n] = true
+		}
+	}
+	for _, pn := range r.Registry.PackageNames() {
+		if pn == lisp.DefaultLangPackage || s.stdPkgs[pn] {
+			continue
+		}
+		p := r.Registry.Package(pn)
+		var names []string
+		for _, n := range p.SymbolNames() {
+			if !langNames[n] {
+				names = append(names, n)
+			}
+		}
+		reg[pn] = J{"exports": p.Externals(), "names": names}
+	}
+	st := J{"reg": reg, "frames": len(r.Stack.Frames), "nest": r.EvalNesting(), "pkg": r.Package.Name, "cond": cc != nil, "ctxleak": s.ctx != nil && s.env.Context() == context.Context(s.ctx)}
 	return st
 }
 
